@@ -86,6 +86,19 @@ func c07Spec() *histSpec {
 				add(fmt.Sprintf("令%s、%s = %s", fresh[0], fresh[1], y), fresh[:2], c07Decl(fresh[:2], c07V(y)))
 			}
 		}
+		for _, y := range declared {
+			// literals that contain a variable: the literal is fresh, what it holds must be copied too
+			if len(fresh) > 0 {
+				add(fmt.Sprintf("令%s = 【%s，9】", fresh[0], y), fresh[:1], c07Decl(fresh[:1], zn.List{Items: []zn.Expr{c07V(y), zn.Num{Lit: "9"}}}))
+			}
+			for _, x := range declared {
+				if x == y {
+					continue
+				}
+				add(fmt.Sprintf("%s = 【%s，9】", x, y), nil, c07S(zn.Assign{Target: c07V(x), Val: zn.List{Items: []zn.Expr{c07V(y), zn.Num{Lit: "9"}}}}))
+				add(fmt.Sprintf("%s#“K” = 【K=%s】", x, y), nil, c07S(zn.Assign{Target: c07Idx(c07V(x), kk), Val: zn.Dict{Pairs: []zn.DictPair{{Key: "K", Val: c07V(y)}}}}))
+			}
+		}
 		for _, x := range declared {
 			X := c07V(x)
 			for _, y := range declared {
@@ -217,7 +230,7 @@ func init() {
 	mc.Register(&mc.Check{
 		ID:    "C07",
 		Level: "model_checking",
-		Rule: "E2: breadth-first search over operation histories on names A B C starting from 4 initial values (nested list, dictionary of list, list of dictionary, object with a list property); operations: 令X = Y, 令X = Y之P, 令X = Y#1, 令X、Z = Y, X = Y, X之P = Y, X#1 = Y, X#“K” = Y, element / key / nested assignments, 后增 前增 左移 右移 移除 合并 at top and nested level, object methods and property writes; every successor is produced by re-running the whole history on a fresh real interpreter; all live names are observed structurally after every operation and compared with the reference (heap of trees, pointers only for objects); in every new state a probe battery mutates every container position reachable from every name and observes all names. States are merged on the reference state (values + object identity structure). Plus 36 literal-freshness programs.",
+		Rule: "E2: breadth-first search over operation histories on names A B C starting from 4 initial values (nested list, dictionary of list, list of dictionary, object with a list property); operations: 令X = Y, 令X = 【Y，9】, X = 【Y，9】, X#“K” = 【K=Y】, 令X = Y之P, 令X = Y#1, 令X、Z = Y, X = Y, X之P = Y, X#1 = Y, X#“K” = Y, element / key / nested assignments, 后增 前增 左移 右移 移除 合并 at top and nested level, object methods and property writes; every successor is produced by re-running the whole history on a fresh real interpreter; all live names are observed structurally after every operation and compared with the reference (heap of trees, pointers only for objects); in every new state a probe battery mutates every container position reachable from every name and observes all names. States are merged on the reference state (values + object identity structure). Plus 36 literal-freshness programs.",
 		Assumptions: []string{
 			"list/dictionary values passed as method arguments or bound by 得到 / loop variables are by-reference today and unspecified: method arguments are fresh scalars or literals only",
 			"merging on the reference state is sound because the probe battery (mutate through each name at each position, observe all) is run in every new state before later duplicates are absorbed",
